@@ -1,6 +1,6 @@
 use proc_macro2::{Span, TokenStream};
-use quote::quote;
-use syn::{Data, DeriveInput, Fields, Ident};
+use quote::{format_ident, quote};
+use syn::{Data, DeriveInput, Fields};
 
 use crate::helpers::{non_enum_error, HasStrumVariantProperties, HasTypeProperties};
 
@@ -63,7 +63,7 @@ pub fn enum_iter_inner(ast: &DeriveInput) -> syn::Result<TokenStream> {
 
     let variant_count = arms.len();
     arms.push(quote! { _ => ::core::option::Option::None });
-    let iter_name = syn::parse_str::<Ident>(&format!("{}Iter", name)).unwrap();
+    let iter_name = format_ident!("{}Iter", name);
 
     // Create a string literal "MyEnumIter" to use in the debug impl.
     let iter_name_debug_struct =
